@@ -980,6 +980,10 @@ pub fn suite_c08(ctx: &mut Ctx, label: &str) {
         }
     }
     let mut id = 0;
+    // three passes: the matrix; lookups of a missing path while the descriptor table is (made to look) exhausted from the
+    // k-th system call on, for every second k; the matrix again.  What a lookup answers must not depend on what happened
+    // to an earlier lookup of the process.
+    for pass in ["first", "exhausted", "again"] {
     for kind in HKind::ALL {
         for emulated in [false, true] {
             if !verif::openat2_is_supported() && !emulated {
@@ -999,6 +1003,29 @@ pub fn suite_c08(ctx: &mut Ctx, label: &str) {
                 Ok(None) => verif::global_procfs(),
                 Err(_) => continue,
             };
+            if pass == "exhausted" {
+                let mk = |idstr: String| PCase {
+                    id: idstr,
+                    suite: "proc_matrix",
+                    kind,
+                    emulated,
+                    api: Api::Open,
+                    base: ProcfsBase::ProcRoot,
+                    subpath: b"nonexistent".to_vec(),
+                    flags: libc::O_PATH,
+                    meta: format!("env={label} class=faulted uid={} host_visible=0 pass=exhausted", unsafe { libc::geteuid() }),
+                };
+                id += 1;
+                let n = run_pcase_f(ctx, handle, &mk(format!("m{id}")), None).len();
+                let mut k = 0;
+                while k < n {
+                    id += 1;
+                    let ip = Box::new(crate::attack::Faulter(crate::attack::Fault::Exhaust(k), 0)) as Box<dyn pathrs::verif::Interposer>;
+                    run_pcase_x(ctx, handle, &mk(format!("m{id}")), &format!("fault exhaust at={k}\n"), Some(ip), &mut || String::new());
+                    k += 2;
+                }
+                continue;
+            }
             for (base, sub, class) in &paths {
                 id += 1;
                 run_pcase(
@@ -1020,7 +1047,7 @@ pub fn suite_c08(ctx: &mut Ctx, label: &str) {
                                 _ => format!("/proc/thread-self/{}", String::from_utf8_lossy(sub)),
                             };
                             format!(
-                                "env={label} class={class} uid={} host_visible={}",
+                                "env={label} class={class} uid={} host_visible={} pass={pass}",
                                 unsafe { libc::geteuid() },
                                 fs::symlink_metadata(&host).is_ok() as u8
                             )
@@ -1029,6 +1056,7 @@ pub fn suite_c08(ctx: &mut Ctx, label: &str) {
                 );
             }
         }
+    }
     }
 }
 
